@@ -95,6 +95,8 @@ def c_scope(lib, f):
 def c_fname(lib, f, call=None):
     base = {"ctor": "ctor", "dtor": "dtor"}.get(f["kind"], un_camel(f["name"]))
     suf = f.get("suffix")
+    if f.get("tmpl"):
+        return PREFIX + base + f["tmpl"]["suffix"]      # {function_suffix}{template_suffix}
     if suf is None and "ovl_pos_base" in f:
         # documented default: the position in the overload set, counting every default-argument arity
         k = f["ovl_pos_base"]
@@ -278,6 +280,12 @@ def obs_arr_f(T, slot, v):
 
 def f_procname(lib, f):
     suf = f.get("suffix")
+    if f.get("tmpl"):
+        # one generic interface named after the template, except when the result is templated
+        # (a generic cannot be resolved by its result) or there is one instantiation only: then the specific names are the API
+        if f["tmpl"]["templated_result"] or f["tmpl"]["ninst"] == 1:
+            return (un_camel(f["name"]) + f["tmpl"]["suffix"]).lower()
+        return un_camel(f["name"]).lower()
     if f.get("noverload", 1) > 1 or f.get("ndefault"):
         return un_camel(f["name"]).lower()        # documented: the generic name is the C++ name
     return (un_camel(f["name"]) + (suf or "")).lower()
